@@ -319,6 +319,20 @@ class E2Check:
                                    "why": "bounded stand-in for a function outside the fragment found a failure",
                                    "counter_model": None, "native": nat})
         self.phase["standins_s"] = round(time.time() - t_standin, 1)
+        if self.prop == "C02":
+            seen_nc = set()
+            for task, out in pipe["results"]:
+                for cname, err in out.get("noncompiling", []):
+                    top = cname.split(".")[0]
+                    ident = out["idents"].get(top, "realistic:" + top)
+                    if (ident, cname) in seen_nc:
+                        continue
+                    seen_nc.add((ident, cname))
+                    violations.append({"spec": ident, "body": bodies.get(ident), "class": cname,
+                                       "obligation": f"{cname}:emitted-module-compiles", "status": "native",
+                                       "why": "the module emitted for a valid specification is not valid Python: " + err,
+                                       "counter_model": None,
+                                       "native": {"kind": "emitted-module-does-not-compile", "error": err, "class": cname}})
         # valid specs the generator refuses (C02's boolean clause / C18) are violations of C02
         if self.prop == "C02":
             for idents, err in generr:
